@@ -16,7 +16,13 @@ func hardPeriodHistories() [][]POp {
 	ta, tb := POp{K: "take", Key: "a"}, POp{K: "take", Key: "b"}
 	on, off := POp{K: "fault", On: true, Hard: true}, POp{K: "fault", Hard: true}
 	adv := func(a string) POp { return POp{K: "adv", A: a} }
+	// a REAL restart: the socket comes back, the script cache is gone (miniredis' Restart keeps
+	// it, a Redis server never does) and the data is kept (persistence) or gone with it
+	lost, wiped := POp{K: "noscript"}, POp{K: "wipe"}
 	return [][]POp{
+		{cfg(1, 2), ta, on, off, lost, ta, ta, tb, tb, tb},
+		{cfg(2, 1), ta, on, ta, off, lost, ta, adv("p"), lost, ta, ta},
+		{cfg(1, 2), ta, ta, on, off, wiped, ta, ta, ta, adv("half"), tb, wiped, tb, tb, tb},
 		{cfg(1, 2), on, ta, off, ta, ta, ta},
 		{cfg(1, 2), ta, on, ta, tb, off, ta, ta, tb},
 		{cfg(2, 1), ta, on, ta, adv("p"), off, ta, ta},
@@ -29,10 +35,33 @@ func hardTokenHistories() [][]TOp {
 	al := func(i, n int) TOp { return TOp{K: "allow", I: i, N: n} }
 	on, off := TOp{K: "outage", On: true, Hard: true}, TOp{K: "outage", Hard: true}
 	adv := func(ms int64) TOp { return TOp{K: "adv", Ms: ms} }
+	lost, wiped := TOp{K: "noscript"}, TOp{K: "wipe"} // see hardPeriodHistories
 	return [][]TOp{
+		{cfg(2, 4), al(1, 4), on, off, lost, al(2, 1), al(1, 1), adv(1000), al(2, 2), al(1, 1)},
+		{cfg(1, 1), al(1, 1), on, al(1, 1), al(2, 1), off, lost, adv(100), al(1, 1), al(2, 1), adv(1000), lost, al(2, 1), al(1, 1)},
+		{cfg(5, 10), al(1, 10), on, al(2, 10), off, wiped, adv(100), al(2, 10), al(1, 1), adv(1000), al(1, 5), al(2, 1), wiped, al(2, 10), al(1, 1)},
 		{cfg(1, 1), al(1, 1), on, al(1, 1), al(1, 1), al(2, 1), al(2, 1), off, adv(100), al(1, 1), al(2, 1), adv(1000), al(2, 1), al(1, 1)},
 		{cfg(2, 4), on, al(1, 4), al(1, 1), al(2, 5), al(2, 4), adv(500), al(1, 1), al(1, 1), off, al(1, 4), adv(100), al(1, 4), al(2, 1)},
 		{cfg(5, 10), al(1, 10), on, al(2, 10), al(2, 1), adv(100), al(2, 1), off, adv(100), al(2, 1), on, al(2, 10), al(1, 10), al(1, 1), off, adv(500), al(1, 1)},
+	}
+}
+
+// Partial outages (soft, no socket games): the store answers PING and refuses everything else.
+// The recovery monitor's ping succeeds, so the instance flips back to store mode every 100 ms and
+// falls out again at its next call — the whole time only its in-process limiter answers, and the
+// statement's local bound (grants ≤ burst + rate·elapsed per instance) is demanded over the WHOLE
+// partial outage, across all those flips. Quick tier: these scripted histories, every prefix;
+// thorough tier: an operation of the BFS alphabet as well.
+func partialTokenHistories() [][]TOp {
+	cfg := func(r, b int) TOp { return TOp{K: "cfg", Rate: r, Burst: b} }
+	al := func(i, n int) TOp { return TOp{K: "allow", I: i, N: n} }
+	on, off := TOp{K: "outage", On: true, Ping: true}, TOp{K: "outage", Ping: true}
+	adv := func(ms int64) TOp { return TOp{K: "adv", Ms: ms} }
+	lost := TOp{K: "noscript"}
+	return [][]TOp{
+		{cfg(2, 4), al(1, 4), on, al(1, 4), adv(100), al(1, 4), al(1, 1), adv(100), al(1, 1), al(2, 4), adv(100), al(2, 1), off, adv(100), al(1, 1), al(2, 1), adv(1000), al(2, 2), al(1, 1)},
+		{cfg(1, 1), on, al(1, 1), adv(100), al(1, 1), adv(100), al(1, 1), adv(500), al(1, 1), adv(500), al(1, 1), al(1, 1), off, al(1, 1), adv(100), al(1, 1), al(2, 1)},
+		{cfg(5, 10), al(2, 10), on, lost, al(1, 10), adv(100), al(1, 10), al(1, 1), adv(100), al(1, 1), off, lost, adv(100), al(1, 1), adv(1000), al(1, 5), al(2, 1)},
 	}
 }
 
@@ -52,10 +81,31 @@ func runHard(r *vlib.Report) {
 		res := runToken(h, false)
 		n++
 		if res.err != "" {
+			// shortest failing prefix as the replay
+			for l := 2; l < len(h); l++ {
+				if p := runToken(h[:l], false); p.err != "" {
+					h, res = h[:l], p
+					break
+				}
+			}
 			r.Violation(res.class, "hard outage: "+res.err, Case{Kind: "token", Token: h})
 		}
 	}
+	np := 0
+	for _, h := range partialTokenHistories() {
+		for l := 2; l <= len(h); l++ {
+			res := runToken(h[:l], false)
+			np++
+			if res.err != "" {
+				r.Violation(res.class, "partial outage: "+res.err, Case{Kind: "token", Token: h[:l]})
+				break
+			}
+		}
+	}
+	r.Eval(np)
+	r.AddTraces(np)
+	r.Scenario("partial-outage-histories", map[string]any{"histories": np, "note": fmt.Sprintf("every prefix of %d token histories in which the store answers PING and refuses every other command", len(partialTokenHistories()))})
 	r.Eval(n)
 	r.AddTraces(n)
-	r.Scenario("hard-outage-histories", map[string]any{"histories": n, "note": fmt.Sprintf("%d period + %d token scripted fault placements with the server socket closed / restarted", len(hardPeriodHistories()), len(hardTokenHistories()))})
+	r.Scenario("hard-outage-histories", map[string]any{"histories": n, "note": fmt.Sprintf("%d period + %d token scripted fault placements with the server socket closed / restarted, incl. restarts that lose the script cache (data kept) or data and script cache", len(hardPeriodHistories()), len(hardTokenHistories()))})
 }
